@@ -24,6 +24,7 @@ THEOREMS = [
     "Modify.FromOK.full", "Modify.FromOK.partial",
     "C08.copy_ok", "C08.copy_paths", "C08.copy_fresh_ids", "C08.copy_origin_untouched",
     "C08.source_untouched", "C08.t2t_copy", "C08.delete_paths",
+    "C08.frame_all_flags_step", "C08.frame_all_flags", "C08.frame_all_flags_mem",
 ]
 PROOF_IMPORTS = ["BigtreeProofs.Properties.C08"]
 FLAGS = ["skippable", "overriding", "merge_children", "merge_leaves", "delete_children", "with_full_path"]
@@ -1019,7 +1020,11 @@ LEVEL_TEXT = ("Proof. Lean 4 theorems (C08.*) about a hand-written executable mo
               "delete_children, plain copy (copy_paths, copy_fresh_ids, copy_origin_untouched), tree-to-tree copy (t2t_copy, "
               "source_untouched for every flag combination and pair list), delete (delete_paths), overriding_paths, "
               "merge_children_paths, merge_leaves_paths, replace_keeps_position; the from-path may be a printed full path "
-              "(with_full_path) or a partial path / node name matching exactly one node (FromOK.partial, find_path semantics). "
+              "(with_full_path) or a partial path / node name matching exactly one node (FromOK.partial, find_path semantics); "
+              "(3) frame_all_flags(_step, _mem) - for EVERY flag combination (copy, skippable, overriding, merge_children, "
+              "merge_leaves, delete_children, with_full_path), same-tree and tree-to-tree, every tree and every string (no "
+              "hypothesis at all): the nodes that lie neither below the from-node nor below the existing destination keep their "
+              "identity, path, attributes and relative order (their entry list is a sublist of the result's). "
               "Partial in this sense: each single-pair theorem fixes one kind of edit (the other merge/override flags off; merge and "
               "override theorems are for shift onto an existing destination whose subtree is disjoint from the from-subtree; "
               "replace for delete_children=False); the combinations not covered by a theorem (e.g. copy+merge, merge onto a missing "
